@@ -185,15 +185,28 @@ package nsqd
 //@ pred r4CNotifyCmd(c *nsq.Command, v any) :=
 //@      (dyntype(v) == typetag("*Channel") ==> c != nil && r4CCmdKind(c) == (unbox(v, "*Channel").exitFlag == 1 ? 3 : 2) && r4CCmdTopic(c) == unbox(v, "*Channel").topicName && r4CCmdChan(c) == unbox(v, "*Channel").name) &&
 //@      (dyntype(v) == typetag("*Topic") ==> c != nil && r4CCmdKind(c) == (unbox(v, "*Topic").exitFlag == 1 ? 3 : 2) && r4CCmdTopic(c) == unbox(v, "*Topic").name && r4CCmdChan(c) == "")
+// The daemon's control channels are created by nsqd.New and never replaced (SSA sweep).
+//@ immutable NSQD.notifyChan, NSQD.optsNotificationChan, NSQD.exitChan
+// (round 5) r5PeersAligned: the address book the connect pass consults (lookupAddrs) lists exactly the addresses of the current peers, position
+// by position - so an address is skipped by the connect pass iff a peer for it exists (a peer removed by reconfiguration can be added back).
+//@ pred r5PeersAligned(ps []*lookupPeer, as []string) := len(as) == len(ps) && (forall k int :: {ps[k]} {as[k]} 0 <= k && k < len(ps) ==> as[k] == ps[k].addr)
 //@ func (n *NSQD) lookupLoop()
-//@   props C16
+//@   props C16 C06 C14
 //@   requires n != nil
+//   (the daemon's control channels exist: made by nsqd.New before Main starts this loop)
+//@   requires[control-channels-exist] n.notifyChan != nil && n.optsNotificationChan != nil && n.exitChan != nil
 //@   loop 0
 //@     invariant[peers-usable] r4CPeersOK(lookupPeers)
 //@     invariant[ticker] ticker != nil
+//@     invariant[address-book-matches-peers] r5PeersAligned(lookupPeers, lookupAddrs)
+//   C06 / C16: NSQD.Notify persists the metadata only after this loop has received its notification, and reconfiguration / shutdown
+//   reach the loop through channels too: EVERY iteration waits on all of them (none of the cases is ever switched off with a nil channel)
+//@     backedge[every-iteration-listens-for-notifications] listened(n.notifyChan)
+//@     backedge[every-iteration-listens-for-reconfiguration-and-exit] listened(n.optsNotificationChan) && listened(n.exitChan)
 //@   loop 1
 //@     invariant[peers-usable] r4CPeersOK(lookupPeers)
 //@     invariant[ticker] ticker != nil
+//@     invariant[address-book-matches-peers] r5PeersAligned(lookupPeers, lookupAddrs)
 //@   loop 2
 //@     invariant[peers-usable] r4CPeersOK(lookupPeers)
 //@     invariant[ticker] ticker != nil
@@ -208,3 +221,4 @@ package nsqd
 //@   loop 4
 //@     invariant[peers-usable] r4CPeersOK(lookupPeers) && r4CPeersOK(tmpPeers)
 //@     invariant[ticker] ticker != nil
+//@     invariant[kept-address-book-matches-kept-peers] r5PeersAligned(tmpPeers, tmpAddrs)
